@@ -1540,8 +1540,31 @@ def history_stream(ctx, out: Outcome, cases):
     rn.cache_clear()
 
 
+NONASCII_TAGS = ["_Stra\u00dfe", "_\u0391\u03a3", "_\u0130x", "_\u017ft", "_\u01c5", "_\u00c0\u00c9", "_x\u00df", "_\u03a3\u03a3"]
+
+
+def nonascii_tag_stream(ctx: Ctx, out: Outcome):
+    """The user tag is returned 'lower-cased exactly as given': for tags outside ASCII (which the Lean string model does not cover,
+    see ASSUMPTIONS) that is Python's str.lower(), not any other case mapping.  Oracle only, a handful of fixed tags."""
+    from qcelemental.molparse.nucleus import reconcile_nucleus
+
+    for tag in NONASCII_TAGS:
+        for lab, kw in ((f"@13C{tag}@13.003", {"speclabel": True}), (f"He{tag}", {"speclabel": True}), (tag, {"E": "C", "speclabel": False})):
+            out.evaluations += 1
+            out.count("nonascii_tag")
+            case = {"op": "nonascii", "label": lab, "kw": kw}
+            try:
+                r = reconcile_nucleus(label=lab, verbose=-1, **kw)
+            except Exception as e:  # noqa
+                out.violations.append(Finding("oracle:user", case, observed=err_class(e), expected=tag.lower(), detail="a label with a non-ASCII user tag is refused"))
+                continue
+            if r[5] != tag.lower():
+                out.violations.append(Finding("oracle:user", case, observed=r[5], expected=tag.lower(), detail="the user tag is not returned lower-cased (str.lower) exactly as given"))
+
+
 def run(ctx: Ctx) -> Outcome:
     out = Outcome()
+    nonascii_tag_stream(ctx, out)
     T = tab()
     lines, checks = [], []
     stream_floats(ctx, out, lines, checks)
@@ -1600,6 +1623,9 @@ def run(ctx: Ctx) -> Outcome:
 def replay(ctx: Ctx, case) -> Outcome:
     out = Outcome()
     op = case.get("op")
+    if op == "nonascii":
+        nonascii_tag_stream(ctx, out)
+        return out
     if op == "R":
         c = case_unjson(case["case"])
         _rn().cache_clear()
